@@ -667,7 +667,150 @@ def strategies():
             assoc_rq(maxn), assoc_ac(maxn), rj, pdata, st.just(ReleaseRQ()), st.just(ReleaseRP()), abort
         )
 
+    # ---- conformant by construction (every value is accepted by ref_parse(strict=True)): exactly one Maximum Length and
+    # one Implementation Class UID sub-item, the optional sub-items in their legal multiplicity (PS3.7 Annex D.3.3: at most
+    # one 0x53/0x55/0x58/0x59, one 0x54/0x56/0x57 per SOP class), 1..n presentation contexts with unique odd IDs.
+    user_text = st.text(alphabet="abcdefghijklmnopqrstuvwxyzABCDEFGHIJKLMNOPQRSTUVWXYZ0123456789 _-.@", min_size=1, max_size=24).map(lambda s: s.encode("ascii"))
+    legal_max_length = st.builds(MaxLength, st.one_of(st.sampled_from([0, 1, 6, 7, 16382, 16384, 65536, 2**31 - 1, 2**31, 2**32 - 1]), st.integers(0, 2**32 - 1)))
+
+    @st.composite
+    def legal_user_id_rq(draw):
+        ty = draw(st.integers(1, 5))
+        primary = draw(user_text) if ty <= 2 else draw(nonempty_field)
+        secondary = draw(user_text) if ty == 2 else b""
+        return UserIdRQ(ty, draw(st.integers(0, 1)), primary, secondary)
+
+    def conformant_user_items(kind):
+        @st.composite
+        def s(draw):
+            items = [draw(legal_max_length), draw(impl_uid)]
+            if draw(st.booleans()):
+                items.append(draw(async_ops))
+            items += draw(st.lists(role, max_size=3, unique_by=lambda r: r.uid))
+            if draw(st.booleans()):
+                items.append(draw(impl_ver))
+            items += draw(st.lists(sop_ext, max_size=2, unique_by=lambda r: r.uid))
+            if kind == "rq":
+                items += draw(st.lists(common_ext, max_size=2, unique_by=lambda r: r.uid))
+                if draw(st.integers(0, 2)) == 0:
+                    items.append(draw(legal_user_id_rq()))
+            elif draw(st.integers(0, 2)) == 0:
+                items.append(draw(user_id_ac))
+            if draw(st.integers(0, 3)) == 0:
+                items = list(draw(st.permutations(items)))
+            return items
+
+        return s()
+
+    def unique_cids(minn, maxn):
+        return st.lists(cid, min_size=minn, max_size=maxn, unique=True)
+
+    def conformant_rq(maxn=4, leads=True, versions=True):
+        @st.composite
+        def s(draw):
+            called, calling = draw(ae_title()), draw(ae_title())
+            lc = draw(st.integers(0, 16 - len(called))) if leads and draw(st.booleans()) else 0
+            lg = draw(st.integers(0, 16 - len(calling))) if leads and draw(st.booleans()) else 0
+            if maxn > 16:
+                # many contexts (up to the 128 the ID space allows): one drawn abstract syntax root and transfer syntax list for all
+                # of them, so that the example stays cheap to generate
+                n = draw(st.sampled_from([128, 128, 127, 64, 17]))
+                ids = list(range(1, 256, 2))[: min(n, maxn)]
+                root, ts = draw(uid(56)), draw(st.lists(uid(), min_size=1, max_size=2, unique=True))
+                ctxs = [PCRQ(i, f"{root}.{i}", ts) for i in ids]
+            else:
+                ids = sorted(draw(unique_cids(1, maxn)))
+                if draw(st.integers(0, 4)) == 0:
+                    ids = list(draw(st.permutations(ids)))
+                ctxs = [PCRQ(i, draw(uid()), draw(st.lists(uid(), min_size=1, max_size=4, unique=True))) for i in ids]
+            pv = 1 if not versions or draw(st.integers(0, 2)) else draw(st.integers(0, 0x7FFF)) * 2 + 1
+            return AssocRQ(called, calling, draw(uid()), ctxs, draw(conformant_user_items("rq")), pv, lc, lg)
+
+        return s()
+
+    def conformant_ac(maxn=4, versions=True):
+        @st.composite
+        def s(draw):
+            ctxs = []
+            if maxn > 16:
+                n = draw(st.sampled_from([128, 128, 127, 64, 17]))
+                ts = draw(uid())
+                results = draw(st.lists(st.sampled_from([0, 0, 0, 1, 2, 3, 4]), min_size=8, max_size=8))
+                for k, i in enumerate(list(range(1, 256, 2))[: min(n, maxn)]):
+                    res = results[k % 8]
+                    ctxs.append(PCAC(i, res, ts if res == 0 or k % 3 else None))
+            else:
+                for i in sorted(draw(unique_cids(1, maxn))):
+                    res = draw(st.sampled_from([0, 0, 0, 1, 2, 3, 4]))
+                    ctxs.append(PCAC(i, res, draw(uid()) if res == 0 or draw(st.booleans()) else None))
+            pv = 1 if not versions or draw(st.integers(0, 2)) else draw(st.integers(0, 0x7FFF)) * 2 + 1
+            return AssocAC(draw(ae_title()), draw(ae_title()), draw(uid()), ctxs, draw(conformant_user_items("ac")), pv)
+
+        return s()
+
+    @st.composite
+    def fill_reserved(draw, b, ac_titles=True):
+        """Encoded conformant PDU -> the same PDU with bytes drawn for every field PS3.8 marks 'reserved ... shall not be
+        tested' (see reserved_offsets); ac_titles=False leaves the two reserved AE-title fields of an A-ASSOCIATE-AC alone."""
+        b = bytearray(b)
+        offs = [o for o in reserved_offsets(bytes(b)) if ac_titles or not (b[0] == 2 and 10 <= o < 42)]
+        mode = draw(st.integers(0, 3))
+        if mode == 0:
+            fill = bytes([draw(st.sampled_from([0xFF, 0x80, 0x01, 0x20, 0x5C, 0xC3]))]) * len(offs)
+        elif mode == 1:  # a few of them
+            fill = bytearray(b[o] for o in offs)
+            for _ in range(draw(st.integers(1, 4))):
+                if offs:
+                    fill[draw(st.integers(0, len(offs) - 1))] = draw(st.integers(1, 255))
+        else:
+            fill = draw(st.binary(min_size=len(offs), max_size=len(offs)))
+        for o, v in zip(offs, fill):
+            b[o] = v
+        return bytes(b)
+
     return SimpleNamespace(**locals())
+
+
+def reserved_offsets(b):
+    """Offsets of every byte of the well-formed PDU `b` that PS3.8 Tables 9-11..9-26 / PS3.7 Annex D mark as reserved
+    ('sent with value 00H but not tested'): byte 2 of the PDU header and of every item / sub-item header, bytes 9-10 and 43-74
+    of A-ASSOCIATE-RQ/AC, the called/calling AE title fields of an A-ASSOCIATE-AC (Table 9-17), the three bytes after the context
+    ID of a presentation context item (RQ) resp. the bytes before and after Result/Reason (AC), byte 7 of A-ASSOCIATE-RJ,
+    bytes 7-10 of A-RELEASE-RQ/RP and bytes 7-8 of A-ABORT. Unknown layouts contribute only the PDU-level fields."""
+    out = [1]
+    if len(b) < 6:
+        return out
+    t = b[0]
+    if t in (1, 2) and len(b) >= 74:
+        out += [8, 9] + list(range(42, 74))
+        if t == 2:
+            out += list(range(10, 42))
+
+        def walk(o, stop, depth):
+            while o + 4 <= stop:
+                ln = struct.unpack(">H", b[o + 2 : o + 4])[0]
+                end = o + 4 + ln
+                if end > stop:
+                    return
+                out.append(o + 1)
+                if depth == 0 and b[o] == 0x20 and ln >= 4:
+                    out.extend([o + 5, o + 6, o + 7])
+                    walk(o + 8, end, 1)
+                elif depth == 0 and b[o] == 0x21 and ln >= 4:
+                    out.extend([o + 5, o + 7])
+                    walk(o + 8, end, 1)
+                elif depth == 0 and b[o] == 0x50:
+                    walk(o + 4, end, 1)
+                o = end
+
+        walk(74, len(b), 0)
+    elif t == 3 and len(b) == 10:
+        out.append(6)
+    elif t in (5, 6) and len(b) == 10:
+        out += [6, 7, 8, 9]
+    elif t == 7 and len(b) == 10:
+        out += [6, 7]
+    return sorted(set(out))
 
 
 # --------------------------------------------------------------------------- bridge to pynetdicom (public API only)
